@@ -1193,6 +1193,9 @@ func (a *Analysis) AllowedOutputs(opts canon.Options) *Allowed {
 				ch[u.key] = true
 			}
 		}
+		if a.breaksCopyRule(ch) {
+			continue
+		}
 		f, err := a.Rewrite(ch)
 		if err != nil {
 			al.Err = err
@@ -1206,6 +1209,51 @@ func (a *Analysis) AllowedOutputs(opts canon.Options) *Allowed {
 		al.Canon[c] = string(printed)
 	}
 	return al
+}
+
+// breaksCopyRule reports whether the choice rewrites a site that lies inside the code bound to a metavariable
+// of another rewritten site. C01 leaves instances inside a rewritten instance unconstrained, but C03 pins this
+// case: each occurrence of the metavariable is replaced by a syntactically identical copy of the code it stood
+// for, so a site inside that code must appear unrewritten in the copies.
+func (a *Analysis) breaksCopyRule(ch Choice) bool {
+	bindingsOf := func(k [2]int) *Bindings {
+		s := a.Sites[k[0]]
+		if a.CC.C.Kind == "stmts" {
+			return s.Instances[k[1]].B
+		}
+		return s.B
+	}
+	span := func(v reflect.Value) (token.Pos, token.Pos, bool) {
+		if !v.IsValid() || (v.Kind() == reflect.Ptr && v.IsNil()) || !v.CanInterface() {
+			return 0, 0, false
+		}
+		n, ok := v.Interface().(ast.Node)
+		if !ok {
+			return 0, 0, false
+		}
+		return n.Pos(), n.End(), true
+	}
+	for u := range ch {
+		upos, uend, ok := span(a.Sites[u[0]].Node)
+		if !ok {
+			continue
+		}
+		for p := range ch {
+			if p[0] == u[0] {
+				continue
+			}
+			b := bindingsOf(p)
+			if b == nil {
+				continue
+			}
+			for _, v := range b.Vars {
+				if bpos, bend, ok := span(v); ok && bpos <= upos && uend <= bend {
+					return true
+				}
+			}
+		}
+	}
+	return false
 }
 
 // SubsetExplaining searches for a set of units whose rewriting yields the
